@@ -13,11 +13,11 @@
 
 #define MAXF 48
 
-enum { CL_W32, CL_STRADDLE, CL_EXACT, CL_SHORT, CL_SEG, CL_BITOFF, CL_RDOVER, CL_EMPTYSEG, CL_W32EMPTY, CL_OPAQUE, CL_EXTRACT_BITS, CL_RESEG, CL_LATE_START, CL_SPLICED, CL_LEAD_STRIPPED };
+enum { CL_W32, CL_STRADDLE, CL_EXACT, CL_SHORT, CL_SEG, CL_BITOFF, CL_RDOVER, CL_EMPTYSEG, CL_W32EMPTY, CL_OPAQUE, CL_EXTRACT_BITS, CL_RESEG, CL_LATE_START, CL_SPLICED, CL_LEAD_STRIPPED, CL_INSERTED };
 static const char *const class_names[] = {
     "field_32bit", "field_straddles_cache", "buffer_exactly_full", "buffer_too_small",
     "read_segmented", "read_bit_offset", "read_past_end", "empty_segment", "w32_on_empty_cache", "read_from_plain_memory", "extract_bits_into_writer", "block_resegmented_before_reading",
-    "reader_starts_at_a_later_field", "reader_over_a_splice_that_ends_inside_a_segment", "lead_octets_deleted_after_an_access_further_in", NULL };
+    "reader_starts_at_a_later_field", "reader_over_a_splice_that_ends_inside_a_segment", "lead_octets_deleted_after_an_access_further_in", "piece_cut_out_and_inserted_back", NULL };
 
 static void ref_pack(const uint8_t *w, const uint32_t *v, int n, uint8_t *out, size_t outsz)
 {
@@ -164,7 +164,7 @@ static int run(const uint8_t *tp_, size_t len, struct vp_report *rep, unsigned f
     }
 
     /* ---- block bit-stream reader over a segmentation ---- */
-    int nseg = 0, bitoff = 0; bool emptyseg = false; bool rdover = false; bool reseg = false; int skipf = 0; bool spliced = false, stripped = false;
+    int nseg = 0, bitoff = 0; bool emptyseg = false; bool rdover = false; bool reseg = false; int skipf = 0; bool spliced = false, stripped = false, inserted = false;
     if (ret == 0) {
         struct fix_mem fm;
         if (fix_mem_init(&fm, 0, 0, 0) != 0) { free(buf); free(expect); return vp_internal(rep, "fix_mem_init"); }
@@ -248,6 +248,17 @@ static int run(const uint8_t *tp_, size_t len, struct vp_report *rep, unsigned f
                 if (off == 0 || off >= cur) continue;
                 struct ubuf *tail = ubuf_block_split(ubuf, (int)off);
                 if (tail == NULL) { ret = vp_internal(rep, "ubuf_block_split(%zu) of %zu octets", off, cur); break; }
+                if ((sh2 & 0x10) && cur - off >= 2) {
+                    /* the tail is cut once more, its end appended and its beginning -- one or several segments -- inserted back in between */
+                    size_t m = 1 + tp_u8(&t) % (cur - off - 1);
+                    struct ubuf *end = ubuf_block_split(tail, (int)m);
+                    if (end == NULL) { ubuf_free(tail); ret = vp_internal(rep, "ubuf_block_split(%zu) of the tail of %zu octets", m, cur - off); break; }
+                    if (!ubase_check(ubuf_block_append(ubuf, end))) { ubuf_free(end); ubuf_free(tail); ret = vp_internal(rep, "ubuf_block_append of the end"); break; }
+                    if (!ubase_check(ubuf_block_insert(ubuf, (int)off, tail))) { ubuf_free(tail); ret = vp_internal(rep, "ubuf_block_insert(%zu) of %zu octets", off, m); break; }
+                    if (render) vp_render(rep, "  split(%zu), split of the tail at %zu, append of its end, insert(%zu) of its beginning\n", off, m, off);
+                    reseg = inserted = true;
+                    continue;
+                }
                 if (!ubase_check(ubuf_block_append(ubuf, tail))) { ubuf_free(tail); ret = vp_internal(rep, "ubuf_block_append after split"); break; }
                 if (render) vp_render(rep, "  split(%zu)+append\n", off);
                 reseg = true;
@@ -435,6 +446,7 @@ static int run(const uint8_t *tp_, size_t len, struct vp_report *rep, unsigned f
     if (skipf) rep->classes |= 1u << CL_LATE_START;
     if (spliced) rep->classes |= 1u << CL_SPLICED;
     if (stripped) rep->classes |= 1u << CL_LEAD_STRIPPED;
+    if (inserted) rep->classes |= 1u << CL_INSERTED;
     if (w32empty) rep->classes |= 1u << CL_W32EMPTY;
     /* NT: a 32-bit field or a field straddling the cache boundary, and (buffer exactly full or short or segmented read) */
     rep->nontrivial = (w32 || straddle) && (bufsz <= need) && n >= 2;
